@@ -45,13 +45,23 @@ type pong struct {
 	Reply []string `json:"reply"`
 }
 
+type ctcp struct {
+	Verb   string   `json:"verb"`
+	HasArg bool     `json:"hasarg"`
+	Arg    string   `json:"arg"`
+	From   string   `json:"from"`
+	Reply  []string `json:"reply"`
+}
+
 type rec struct {
-	Cfg    Cfg      `json:"cfg"`
-	Dialed string   `json:"dialed"`
-	Burst  []string `json:"burst"`
-	Burst2 []string `json:"burst2"`
-	Pongs  []pong   `json:"pongs"`
-	Pings  int      `json:"pings"`
+	Version string   `json:"version"`
+	Ctcps   []ctcp   `json:"ctcps"`
+	Cfg     Cfg      `json:"cfg"`
+	Dialed  string   `json:"dialed"`
+	Burst   []string `json:"burst"`
+	Burst2  []string `json:"burst2"`
+	Pongs   []pong   `json:"pongs"`
+	Pings   int      `json:"pings"`
 }
 
 func selfSigned() (tls.Certificate, error) {
@@ -225,7 +235,8 @@ func runOne(c Cfg, cert *tls.Certificate, tokens []string, window time.Duration)
 		return fc, nil
 	}
 	conn := client.Client(cfg)
-	r := &rec{Cfg: c, Pongs: []pong{}}
+	cfg.Version = "verif client 1.0"
+	r := &rec{Cfg: c, Pongs: []pong{}, Ctcps: []ctcp{}, Version: cfg.Version}
 	disc := make(chan struct{}, 4)
 	conn.HandleFunc(client.DISCONNECTED, func(*client.Conn, *client.Line) { disc <- struct{}{} })
 	for round := 0; round < 2; round++ {
@@ -279,6 +290,37 @@ func runOne(c Cfg, cert *tls.Certificate, tokens []string, window time.Duration)
 					reply = []string{}
 				}
 				r.Pongs = append(r.Pongs, pong{Tok: latin(tok), Reply: latinAll(reply)})
+			}
+			// the built-in CTCP answers
+			for i, q := range []ctcp{{Verb: "VERSION", From: "asker"}, {Verb: "PING", HasArg: true, Arg: "12345 678", From: "asker2"}, {Verb: "TIME", HasArg: true, Arg: "now", From: "asker"}} {
+				before := len(srv.get())
+				body := q.Verb
+				if q.HasArg {
+					body += " " + q.Arg
+				}
+				srv.send(":" + q.From + "!u@h PRIVMSG " + c.Nick + " :\x01" + body + "\x01")
+				sent := fmt.Sprintf("ctcp-sentinel-%d", i)
+				srv.send("PING :" + sent)
+				if !srv.waitFor(5*time.Second, func(l []string) bool {
+					for _, x := range l[before:] {
+						if x == "PONG :"+sent {
+							return true
+						}
+					}
+					return false
+				}) {
+					return nil, fmt.Errorf("the client stopped answering PING")
+				}
+				q.Reply = []string{}
+				for _, x := range srv.get()[before:] {
+					if x == "PONG :"+sent {
+						break
+					}
+					if !strings.HasPrefix(x, "PING :") {
+						q.Reply = append(q.Reply, latin(x))
+					}
+				}
+				r.Ctcps = append(r.Ctcps, q)
 			}
 			time.Sleep(window)
 			for _, x := range srv.get() {
